@@ -67,9 +67,14 @@ def replaceHead (l : List Sess) (k : Key) (f : Sess → Sess) : List Sess :=
 
 def slotHas (t : Trig) (ts : Int) : Bool := decide (t.sess.start ≤ ts) && decide (ts < t.sess.stop)
 
-/-- the open triggered session of the same key a late row falls into -/
-def findTrig (w : SWin) (k : Key) (ts : Int) : Option Trig :=
-  w.trig.find? (fun t => t.sess.key == k && slotHas t ts)
+def stillOpen (cur : Option Int) (t : Trig) : Bool :=
+  match cur with
+  | none => true
+  | some c => decide (c < t.close)
+
+/-- the triggered session of the same key, still inside its allowance by the watermark `cur`, a late row falls into -/
+def findTrig (w : SWin) (k : Key) (ts : Int) (cur : Option Int) : Option Trig :=
+  w.trig.find? (fun t => t.sess.key == k && slotHas t ts && stillOpen cur t)
 
 def absorb (w : SWin) (t : Trig) (r : Row) : List Trig :=
   w.trig.map (fun u => if u.sess.key == t.sess.key && u.sess.park == t.sess.park then
@@ -87,8 +92,8 @@ inductive Fate where
   | extendHead (h : Sess)     -- on time, below the head's end: joins the head
   deriving Repr, DecidableEq
 
-def lateFate (w : SWin) (k : Key) (r : Row) : Fate :=
-  match findTrig w k r.ts with
+def lateFate (w : SWin) (k : Key) (r : Row) (cur : Option Int) : Fate :=
+  match findTrig w k r.ts cur with
   | some t => .lateAbsorb t
   | none => .lateDrop
 
@@ -100,7 +105,7 @@ def onTimeFate (w : SWin) (k : Key) (r : Row) : Fate :=
   | some h => headFate r h
 
 def fate (w : SWin) (k : Key) (r : Row) (now : Int) : Fate :=
-  if lateNow w r now then (if 0 < w.lateness then lateFate w k r else .lateDrop)
+  if lateNow w r now then (if 0 < w.lateness then lateFate w k r (wmAfter w r now).cur else .lateDrop)
   else onTimeFate w k r
 
 def addSessions (w : SWin) (k : Key) (r : Row) (now : Int) : List Sess :=
